@@ -163,7 +163,7 @@ func genC11(rt *rapid.T) BatchSc {
 	mode := rapid.SampledFrom([]int{0, 1, 2}).Draw(rt, "mode")
 	budget := rapid.IntRange(1, 3).Draw(rt, "budget")
 	wait := rapid.SampledFrom([]int{0, 0, 3600000, 20}).Draw(rt, "wait")
-	cp := CancelPoint{Flavor: "cancel"}
+	cp := CancelPoint{Flavor: rapid.SampledFrom([]string{"cancel", "cancel", "cause", "deadline"}).Draw(rt, "flavor")}
 	if rapid.IntRange(0, 9).Draw(rt, "before") == 0 {
 		cp.Before = true
 		if rapid.Bool().Draw(rt, "dl") {
@@ -212,7 +212,8 @@ func TestC11(t *testing.T) {
 								}
 								k++
 								sched := []int{(item + a) % 4, 1, 3, 2, 0, 1}
-								evalCase(r, "each-point", c11Case(n, c, mode, budget, wait, 0b10010010, CancelPoint{Item: item, Attempt: a, Flavor: "cancel"}, sched), checkC11)
+								fl := []string{"cancel", "deadline", "cause"}[(item+a+n)%3]
+								evalCase(r, "each-point", c11Case(n, c, mode, budget, wait, 0b10010010, CancelPoint{Item: item, Attempt: a, Flavor: fl}, sched), checkC11)
 							}
 						}
 					}
